@@ -260,15 +260,15 @@ func (r *rwRT) ruleOptWhitelist(s *seqRT) {
 // ------------------------------------------------------------------ OPT.ETA
 
 type etaScenario struct {
-	name    string
-	params  [][2]string // (name, objectKey) ; type "..." marks variadic via variadic flag
-	args    []string    // names of identifier arguments; "#call" = non-identifier argument
-	argObjs []string    // object key of each ident argument ("" = same as the like-named param)
+	name     string
+	params   [][2]string // (name, objectKey) ; type "..." marks variadic via variadic flag
+	args     []string    // names of identifier arguments; "#call" = non-identifier argument
+	argObjs  []string    // object key of each ident argument ("" = same as the like-named param)
 	variadic bool
 	ellipsis bool
-	fun     string // callee class
-	same    bool   // types identical
-	may     bool   // replacement preserves meaning
+	fun      string // callee class
+	same     bool   // types identical
+	may      bool   // replacement preserves meaning
 	// partSame: answer for a comparison of only the result tuples / only the parameter tuples
 	// ("" = same as `same`): a comparison of a part must not stand in for the whole type
 	resSame, parSame string
@@ -361,8 +361,8 @@ func (r *rwRT) ruleOptEta() {
 	replaced := 0
 	for _, sc := range scen {
 		st := st0.clone()
-		objs := map[string]AV{}    // ident ref -> object
-		recvOf := map[string]AV{}  // sig name -> recv
+		objs := map[string]AV{}   // ident ref -> object
+		recvOf := map[string]AV{} // sig name -> recv
 		tparams := map[string]int64{}
 		namedOf := map[string]string{} // ident ref -> qualified name of its named type
 		mkObj := func(kind, key string, recv bool, generic int64) AV {
